@@ -16,6 +16,7 @@ mod s2m_suite;
 mod srv;
 mod srv_suite;
 mod timers_suite;
+mod toolarge_suite;
 mod translate;
 mod writer_suite;
 
@@ -235,6 +236,12 @@ fn main() {
       let (rt, local) = local_rt();
       let (seed, cases, only) = (a.seed, a.cases, a.only);
       let t = local.block_on(&rt, async move { pressure_suite::run_suite(seed, cases, only).await });
+      std::fs::write(&a.out, t).expect("write transcript");
+    },
+    "toolarge" => {
+      let (rt, local) = local_rt();
+      let (seed, cases) = (a.seed, a.cases);
+      let t = local.block_on(&rt, async move { toolarge_suite::run_suite(seed, cases).await });
       std::fs::write(&a.out, t).expect("write transcript");
     },
     "links" => {
